@@ -72,7 +72,7 @@ def work_logic(lname):
 def _decide_chunk(job):
     lname, argstrs, optsets = job
     from pytableaux.lang import Argument
-    from bounded import prover as P
+    from bounded import prover as P, args as A_
     logic = RS.registry()(lname)
     sem = S.spec_of(logic.Meta.name)
     out = []
@@ -82,6 +82,7 @@ def _decide_chunk(job):
         arg = Argument(astr)
         want, cm = E.tt_valid(sem, arg.premises, arg.conclusion)
         opts = optsets[i % len(optsets)]
+        if i % 5 == 4: arg = A_.hostile(arg)         # every fifth argument: no two equal sentences/parameters share an object
         o, tab = P.outcome(logic, arg, **opts)
         n += 1
         if o == 'harness-limit':
@@ -153,7 +154,10 @@ def run(ctx):
     ctx.add(enum_ob('C03.no-limit.defaults', Tableau.defaults['max_steps'] is None and Tableau.defaults['build_timeout'] is None,
                     cex=dict(defaults=dict(Tableau.defaults)), clause='no step/time limit unless the caller asks for one'))
     bounded_decide(ctx)
-    ctx.replayers['C03.'] = lambda r: dict(reproduced=None, detail='see counterexample / meta')
+    def _rule_replay(r):
+        from checks import c04
+        return c04.replay(dict(obligation=r.name, counterexample=r.cex, meta=r.meta))
+    ctx.replayers['C03.'] = _rule_replay
 
 def _operator_exactness(lname):
     "re-report the operator-rule exactness and shape obligations under C03 names"
